@@ -406,6 +406,7 @@ package mpb
 //@   props    C07 C02
 //@   requires fn != nil
 //@   ensures  result != nil
+//@   ensures  wraps: fnof(result) == fn("makeMetaFunc$1") && bound(result, "fn") == in(fn)
 
 //@ func makeMetaFunc$1
 //@   props    C07
@@ -499,24 +500,78 @@ package mpb
 
 //@ typeinv barStyle props C07 C02 forall(i, 0, components, self.metaFuncs[i] != nil) && len(self.tipFrames) >= 1
 
+// style setters: each returns the style it was called on with exactly its own element replaced
+//@ func (barStyle).Lbound
+//@   props    C07 C02
+//@   modifies nothing
+//@   ensures  set: hasType(result, "barStyle") && unboxAs(result, "barStyle").style[iLbound] == bound
+//@   ensures  rest: forall(k, 0, components, k != iLbound ==> unboxAs(result, "barStyle").style[k] == s.style[k]) && unboxAs(result, "barStyle").metaFuncs == s.metaFuncs
+//@              && unboxAs(result, "barStyle").tipFrames == s.tipFrames && unboxAs(result, "barStyle").tipOnComplete == s.tipOnComplete && unboxAs(result, "barStyle").rev == s.rev
+//@ func (barStyle).Rbound
+//@   props    C07 C02
+//@   modifies nothing
+//@   ensures  set: hasType(result, "barStyle") && unboxAs(result, "barStyle").style[iRbound] == bound
+//@   ensures  rest: forall(k, 0, components, k != iRbound ==> unboxAs(result, "barStyle").style[k] == s.style[k]) && unboxAs(result, "barStyle").metaFuncs == s.metaFuncs && unboxAs(result, "barStyle").tipFrames == s.tipFrames && unboxAs(result, "barStyle").tipOnComplete == s.tipOnComplete && unboxAs(result, "barStyle").rev == s.rev
+//@ func (barStyle).Filler
+//@   props    C07 C02
+//@   modifies nothing
+//@   ensures  set: hasType(result, "barStyle") && unboxAs(result, "barStyle").style[iFiller] == filler
+//@   ensures  rest: forall(k, 0, components, k != iFiller ==> unboxAs(result, "barStyle").style[k] == s.style[k]) && unboxAs(result, "barStyle").metaFuncs == s.metaFuncs && unboxAs(result, "barStyle").tipFrames == s.tipFrames && unboxAs(result, "barStyle").tipOnComplete == s.tipOnComplete && unboxAs(result, "barStyle").rev == s.rev
+//@ func (barStyle).Refiller
+//@   props    C07 C02
+//@   modifies nothing
+//@   ensures  set: hasType(result, "barStyle") && unboxAs(result, "barStyle").style[iRefiller] == refiller
+//@   ensures  rest: forall(k, 0, components, k != iRefiller ==> unboxAs(result, "barStyle").style[k] == s.style[k]) && unboxAs(result, "barStyle").metaFuncs == s.metaFuncs && unboxAs(result, "barStyle").tipFrames == s.tipFrames && unboxAs(result, "barStyle").tipOnComplete == s.tipOnComplete && unboxAs(result, "barStyle").rev == s.rev
+//@ func (barStyle).Padding
+//@   props    C07 C02
+//@   modifies nothing
+//@   ensures  set: hasType(result, "barStyle") && unboxAs(result, "barStyle").style[iPadding] == padding
+//@   ensures  rest: forall(k, 0, components, k != iPadding ==> unboxAs(result, "barStyle").style[k] == s.style[k]) && unboxAs(result, "barStyle").metaFuncs == s.metaFuncs && unboxAs(result, "barStyle").tipFrames == s.tipFrames && unboxAs(result, "barStyle").tipOnComplete == s.tipOnComplete && unboxAs(result, "barStyle").rev == s.rev
+//@ func (barStyle).Tip
+//@   props    C07 C02
+//@   modifies nothing
+//@   ensures  set: hasType(result, "barStyle") && unboxAs(result, "barStyle").tipFrames == ite(len(frames) != 0, frames, s.tipFrames)
+//@   ensures  rest: unboxAs(result, "barStyle").style == s.style && unboxAs(result, "barStyle").metaFuncs == s.metaFuncs && unboxAs(result, "barStyle").tipOnComplete == s.tipOnComplete && unboxAs(result, "barStyle").rev == s.rev
+//@ func (barStyle).TipOnComplete
+//@   props    C07 C02
+//@   modifies nothing
+//@   ensures  set: hasType(result, "barStyle") && unboxAs(result, "barStyle").tipOnComplete
+//@   ensures  rest: unboxAs(result, "barStyle").style == s.style && unboxAs(result, "barStyle").metaFuncs == s.metaFuncs && unboxAs(result, "barStyle").tipFrames == s.tipFrames && unboxAs(result, "barStyle").rev == s.rev
+//@ func (barStyle).Reverse
+//@   props    C07 C02
+//@   modifies nothing
+//@   ensures  set: hasType(result, "barStyle") && unboxAs(result, "barStyle").rev
+//@   ensures  rest: unboxAs(result, "barStyle").style == s.style && unboxAs(result, "barStyle").metaFuncs == s.metaFuncs && unboxAs(result, "barStyle").tipFrames == s.tipFrames && unboxAs(result, "barStyle").tipOnComplete == s.tipOnComplete
 //@ func (barStyle).LboundMeta
 //@   props    C07 C02
 //@   requires fn != nil
+//@   ensures  set: hasType(result, "barStyle") && unboxAs(result, "barStyle").metaFuncs[iLbound] == returned("makeMetaFunc", 0) && calledWith("makeMetaFunc", 0) == fn
+//@   ensures  rest: forall(k, 0, components, k != iLbound ==> unboxAs(result, "barStyle").metaFuncs[k] == s.metaFuncs[k]) && unboxAs(result, "barStyle").style == s.style && unboxAs(result, "barStyle").tipFrames == s.tipFrames && unboxAs(result, "barStyle").tipOnComplete == s.tipOnComplete && unboxAs(result, "barStyle").rev == s.rev
 //@ func (barStyle).RboundMeta
 //@   props    C07 C02
 //@   requires fn != nil
+//@   ensures  set: hasType(result, "barStyle") && unboxAs(result, "barStyle").metaFuncs[iRbound] == returned("makeMetaFunc", 0) && calledWith("makeMetaFunc", 0) == fn
+//@   ensures  rest: forall(k, 0, components, k != iRbound ==> unboxAs(result, "barStyle").metaFuncs[k] == s.metaFuncs[k]) && unboxAs(result, "barStyle").style == s.style && unboxAs(result, "barStyle").tipFrames == s.tipFrames && unboxAs(result, "barStyle").tipOnComplete == s.tipOnComplete && unboxAs(result, "barStyle").rev == s.rev
 //@ func (barStyle).FillerMeta
 //@   props    C07 C02
 //@   requires fn != nil
+//@   ensures  set: hasType(result, "barStyle") && unboxAs(result, "barStyle").metaFuncs[iFiller] == returned("makeMetaFunc", 0) && calledWith("makeMetaFunc", 0) == fn
+//@   ensures  rest: forall(k, 0, components, k != iFiller ==> unboxAs(result, "barStyle").metaFuncs[k] == s.metaFuncs[k]) && unboxAs(result, "barStyle").style == s.style && unboxAs(result, "barStyle").tipFrames == s.tipFrames && unboxAs(result, "barStyle").tipOnComplete == s.tipOnComplete && unboxAs(result, "barStyle").rev == s.rev
 //@ func (barStyle).RefillerMeta
 //@   props    C07 C02
 //@   requires fn != nil
+//@   ensures  set: hasType(result, "barStyle") && unboxAs(result, "barStyle").metaFuncs[iRefiller] == returned("makeMetaFunc", 0) && calledWith("makeMetaFunc", 0) == fn
+//@   ensures  rest: forall(k, 0, components, k != iRefiller ==> unboxAs(result, "barStyle").metaFuncs[k] == s.metaFuncs[k]) && unboxAs(result, "barStyle").style == s.style && unboxAs(result, "barStyle").tipFrames == s.tipFrames && unboxAs(result, "barStyle").tipOnComplete == s.tipOnComplete && unboxAs(result, "barStyle").rev == s.rev
 //@ func (barStyle).PaddingMeta
 //@   props    C07 C02
 //@   requires fn != nil
+//@   ensures  set: hasType(result, "barStyle") && unboxAs(result, "barStyle").metaFuncs[iPadding] == returned("makeMetaFunc", 0) && calledWith("makeMetaFunc", 0) == fn
+//@   ensures  rest: forall(k, 0, components, k != iPadding ==> unboxAs(result, "barStyle").metaFuncs[k] == s.metaFuncs[k]) && unboxAs(result, "barStyle").style == s.style && unboxAs(result, "barStyle").tipFrames == s.tipFrames && unboxAs(result, "barStyle").tipOnComplete == s.tipOnComplete && unboxAs(result, "barStyle").rev == s.rev
 //@ func (barStyle).TipMeta
 //@   props    C07 C02
 //@   requires fn != nil
+//@   ensures  set: hasType(result, "barStyle") && unboxAs(result, "barStyle").metaFuncs[iTip] == returned("makeMetaFunc", 0) && calledWith("makeMetaFunc", 0) == fn
+//@   ensures  rest: forall(k, 0, components, k != iTip ==> unboxAs(result, "barStyle").metaFuncs[k] == s.metaFuncs[k]) && unboxAs(result, "barStyle").style == s.style && unboxAs(result, "barStyle").tipFrames == s.tipFrames && unboxAs(result, "barStyle").tipOnComplete == s.tipOnComplete && unboxAs(result, "barStyle").rev == s.rev
 
 //@ func (barStyle).Build
 //@   props    C07 C02 C04
@@ -553,12 +608,14 @@ package mpb
 //@   requires padWidth >= 0
 //@   modifies nothing
 //@   ensures  dw(result) == dw(frame) + padWidth
+//@   ensures  side: result == frame + returned("strings.Repeat", 0) && calledWith("strings.Repeat", 0) == " " && calledWith("strings.Repeat", 1) == padWidth
 
 //@ func (spinnerStyle).Build$2
 //@   props    C07 C02
 //@   requires padWidth >= 0
 //@   modifies nothing
 //@   ensures  dw(result) == dw(frame) + padWidth
+//@   ensures  side: result == returned("strings.Repeat", 0) + frame && calledWith("strings.Repeat", 0) == " " && calledWith("strings.Repeat", 1) == padWidth
 
 //@ func (spinnerStyle).Build$3
 //@   props    C07 C02
@@ -569,10 +626,14 @@ package mpb
 //@ func (spinnerStyle).Build
 //@   props    C07 C02
 //@   ensures  result != nil
+//@   ensures  built: hasType(result, "*sFiller") && unboxAs(result, "*sFiller").frames == s.frames && unboxAs(result, "*sFiller").meta == s.meta
+//@   ensures  side: fnof(unboxAs(result, "*sFiller").position) == ite(s.position == positionLeft, fn("(spinnerStyle).Build$1"), ite(s.position == positionRight, fn("(spinnerStyle).Build$2"), fn("(spinnerStyle).Build$3")))
 
 //@ func SpinnerStyle
 //@   props    C07 C02
 //@   ensures  result != nil
+//@   ensures  frames: hasType(result, "spinnerStyle") && (len(in(frames)) != 0 ==> unboxAs(result, "spinnerStyle").frames == in(frames)) && len(unboxAs(result, "spinnerStyle").frames) > 0 && unboxAs(result, "spinnerStyle").position == 0
+//@   ensures  identity: fnof(unboxAs(result, "spinnerStyle").meta) == fn("SpinnerStyle$1")
 
 //@ func SpinnerStyle$1
 //@   props    C07
@@ -583,6 +644,15 @@ package mpb
 //@   props    C07 C02
 //@   requires fn != nil
 //@   ensures  result != nil
+//@   ensures  set: hasType(result, "spinnerStyle") && unboxAs(result, "spinnerStyle").meta == fn && unboxAs(result, "spinnerStyle").frames == s.frames && unboxAs(result, "spinnerStyle").position == s.position
+//@ func (spinnerStyle).PositionLeft
+//@   props    C07 C02
+//@   modifies nothing
+//@   ensures  set: hasType(result, "spinnerStyle") && unboxAs(result, "spinnerStyle").position == positionLeft && unboxAs(result, "spinnerStyle").frames == s.frames && unboxAs(result, "spinnerStyle").meta == s.meta
+//@ func (spinnerStyle).PositionRight
+//@   props    C07 C02
+//@   modifies nothing
+//@   ensures  set: hasType(result, "spinnerStyle") && unboxAs(result, "spinnerStyle").position == positionRight && unboxAs(result, "spinnerStyle").frames == s.frames && unboxAs(result, "spinnerStyle").meta == s.meta
 
 //@ func (*sFiller).Fill
 //@   props    C07 C02
@@ -1110,6 +1180,37 @@ package mpb
 //@   props    C02 C05
 //@   modifies nothing
 //@   ensures  (cond ==> result == option) && (!cond ==> result == nil)
+
+//@ func BarOptOn
+//@   props    C02 C09
+//@   requires predicate != nil
+//@   ensures  asked: called("BarOptOn.predicate") == old(called("BarOptOn.predicate")) + 1 && (returned("BarOptOn.predicate", 0) ==> result == option) && (!returned("BarOptOn.predicate", 0) ==> result == nil)
+//@ func BarFuncOptional
+//@   props    C02 C09
+//@   requires cond ==> option != nil
+//@   ensures  on: cond ==> called("BarFuncOptional.option") == old(called("BarFuncOptional.option")) + 1 && result == returned("BarFuncOptional.option", 0)
+//@   ensures  off: !cond ==> called("BarFuncOptional.option") == old(called("BarFuncOptional.option")) && result == nil
+//@ func BarFuncOptOn
+//@   props    C02 C09
+//@   requires predicate != nil && option != nil
+//@   ensures  asked: called("BarFuncOptOn.predicate") == old(called("BarFuncOptOn.predicate")) + 1
+//@   ensures  on: returned("BarFuncOptOn.predicate", 0) ==> called("BarFuncOptOn.option") == old(called("BarFuncOptOn.option")) + 1 && result == returned("BarFuncOptOn.option", 0)
+//@   ensures  off: !returned("BarFuncOptOn.predicate", 0) ==> called("BarFuncOptOn.option") == old(called("BarFuncOptOn.option")) && result == nil
+//@ func ContainerOptOn
+//@   props    C02 C05
+//@   requires predicate != nil
+//@   ensures  asked: called("ContainerOptOn.predicate") == old(called("ContainerOptOn.predicate")) + 1 && (returned("ContainerOptOn.predicate", 0) ==> result == option) && (!returned("ContainerOptOn.predicate", 0) ==> result == nil)
+//@ func ContainerFuncOptional
+//@   props    C02 C05
+//@   requires cond ==> option != nil
+//@   ensures  on: cond ==> called("ContainerFuncOptional.option") == old(called("ContainerFuncOptional.option")) + 1 && result == returned("ContainerFuncOptional.option", 0)
+//@   ensures  off: !cond ==> called("ContainerFuncOptional.option") == old(called("ContainerFuncOptional.option")) && result == nil
+//@ func ContainerFuncOptOn
+//@   props    C02 C05
+//@   requires predicate != nil && option != nil
+//@   ensures  asked: called("ContainerFuncOptOn.predicate") == old(called("ContainerFuncOptOn.predicate")) + 1
+//@   ensures  on: returned("ContainerFuncOptOn.predicate", 0) ==> called("ContainerFuncOptOn.option") == old(called("ContainerFuncOptOn.option")) + 1 && result == returned("ContainerFuncOptOn.option", 0)
+//@   ensures  off: !returned("ContainerFuncOptOn.predicate", 0) ==> called("ContainerFuncOptOn.option") == old(called("ContainerFuncOptOn.option")) && result == nil
 
 //@ func NewWithContext
 //@   props    C02 C05 C04 C15 C13
